@@ -311,7 +311,8 @@ class FBuilder(Builder):
 
 
 FAIL_KINDS = ["op_shape", "op_axis", "op_matmul", "op_type", "view_index", "view_reshape", "view_transpose", "inplace_index", "inplace_shape",
-              "inplace_aug", "inplace_out", "inplace_type", "inplace_setshape", "op_fpe", "inplace_fpe", "op_where_mask"]
+              "inplace_aug", "inplace_out", "inplace_type", "inplace_setshape", "op_fpe", "inplace_fpe", "op_where_mask", "backward_bad_seed", "norm_matrix",
+              "composite_second_step"]
 
 # ------------------------------------------------------------------------------------------------
 # generators
